@@ -19,8 +19,9 @@ func spec_valid_ip4(p IP4) bool {
 		int(spec_be16(p, 2)) >= int(p[0]&0x0f)*4 && int(spec_be16(p, 2)) <= len(p)
 }
 
-//verif:props C01 C02 C16
+//verif:props C01 C02 C10 C16
 func verif_contract_IP4_IsValid(p IP4) error {
+	vBorrowed(p) // validation only reads the packet
 	a0 := vAllocs()
 	err := p.IsValid()
 	vEnsures((err == nil) == spec_valid_ip4(p))
@@ -222,9 +223,10 @@ func spec_tracked(h *Session, addr Addr) bool {
 // are written and nothing is allocated. The creation / relinking case is TRUSTED here: Parse
 // needs from it only non-nil results and a well-formed session (its full contract is C05's).
 //
-//verif:props C16
+//verif:props C10 C16
 func verif_contract_Session_findOrCreateHostWithLock(h *Session, addr Addr) (*Host, bool) {
 	vRequires(spec_session_wf(h))
+	vBorrowed(addr.MAC) // C10: the MAC may be a view of the packet: it is compared and copied, never kept
 	tracked := spec_hosttable_ok(h) && spec_tracked(h, addr)
 	var h0 *Host
 	var online0 bool
@@ -484,11 +486,12 @@ func spec_steady(h *Session, p []byte, s specFrame) bool {
 	return h.HostTable.Table[a.IP].Online
 }
 
-//verif:props C01 C02 C08 C16
+//verif:props C01 C02 C08 C10 C16
 func verif_contract_Session_Parse(h *Session, p []byte) (Frame, error) {
 	vRequires(spec_session_wf(h) && spec_icmptable_ok())
 	vStrictLen()
 	vModifiesHeap()
+	vBorrowed(p) // C10: nothing retained by the session is a view of the packet buffer
 	s := spec_parse(p)
 	steady := spec_steady(h, p, s)
 	a0 := vAllocs()
@@ -600,9 +603,10 @@ func verif_inv_MACTable_findMAC_1(s *MACTable, rangeindex int) bool {
 }
 func verif_dec_MACTable_findMAC_1(s *MACTable, rangeindex int) int { return len(s.Table) - rangeindex }
 
-//verif:props C08 C13
+//verif:props C08 C10 C13
 func verif_contract_Session_DHCPv4IPOffer(h *Session, mac net.HardwareAddr) netip.Addr {
 	vRequires(h != nil && spec_mactable_nonnil(h))
+	vBorrowed(mac) // only compared
 	r := h.DHCPv4IPOffer(mac)
 	return r
 }
